@@ -158,11 +158,23 @@ pub struct CountingWatchdog {
     pub budget:     u64,
     pub every:      usize,
     pub over_budget: Cell<bool>,
+    pub deadline:   std::time::Instant,
 }
+
+/// wall-clock allowance for one input (seconds); a run that is still polling after that is reported as
+/// "budget exceeded" (treated as non-termination by the checks)
+pub const INPUT_SECONDS: u64 = 25;
 
 impl CountingWatchdog {
     pub fn new(every: usize, stop_at: Option<u64>, budget: u64) -> Self {
-        Self { polls: Cell::new(0), stop_at, budget, every, over_budget: Cell::new(false) }
+        Self {
+            polls: Cell::new(0),
+            stop_at,
+            budget,
+            every,
+            over_budget: Cell::new(false),
+            deadline: std::time::Instant::now() + std::time::Duration::from_secs(INPUT_SECONDS),
+        }
     }
 }
 
@@ -170,7 +182,7 @@ impl Watchdog for CountingWatchdog {
     fn should_stop(&self) -> bool {
         let k = self.polls.get();
         self.polls.set(k + 1);
-        if k >= self.budget {
+        if k >= self.budget || (k % 256 == 0 && std::time::Instant::now() > self.deadline) || self.over_budget.get() {
             self.over_budget.set(true);
             return true;
         }
